@@ -87,6 +87,8 @@ type Exec struct {
 	pcNow  string
 	disabledAuto map[string]bool
 	locals []localObj
+	argTypes []types.Type
+	argFT    bool
 	ifaceStatic map[string]Val // fresh interface constant -> statically known boxed value
 }
 
